@@ -5,6 +5,7 @@ import (
 	"go/ast"
 	"go/constant"
 	"go/token"
+	"go/types"
 	"strings"
 )
 
@@ -48,6 +49,12 @@ func init() {
 		g.callSeq(c10Group, term, "Queue.evict", "evictCalls", []string{"SubResource", "Create", "Delete", "complete"})
 		g.callSeq(c10Group, term, "Queue.forceDelete", "forceDeleteCalls", []string{"SubResource", "Create", "Delete", "complete"})
 		g.callSeq(c10Group, "pkg/controllers/node/termination", "Controller.awaitDrain", "awaitDrainCalls", []string{"Drain", "Delete", "SetTrue"})
+		// where the termination controller takes the node deadline from: annotation key, timestamp layout, the
+		// values nodeTerminationTime is computed from, and what each of its (guarded) returns hands back
+		g.strConst(c10Group, "pkg/apis/v1", "NodeClaimTerminationTimestampAnnotationKey", "terminationTimestampAnnotationKey")
+		g.c10DeadlineSource("pkg/controllers/node/termination", "Controller.nodeTerminationTime", "nodeTerminationTime")
+		// finalize asks for the deadline (and returns its error) before it taints, drains or deletes anything
+		g.callSeq(c10Group, "pkg/controllers/node/termination", "Controller.finalize", "finalizeCalls", []string{"nodeTerminationTime", "Taint", "Drain", "awaitDrain"})
 	})
 }
 
@@ -482,6 +489,88 @@ func (g *gen) c10Conjuncts(pkgPath, fn, lean string) {
 			b.WriteString(", ")
 		}
 		b.WriteString(leanStr(s))
+	}
+	b.WriteString("]\n\n")
+}
+
+// c10DeadlineSource describes `Controller.nodeTerminationTime`: the two-value assignments it computes its
+// result from (lhs, rhs as written), the constant layout passed to time.Parse, and every return statement in
+// source order as (guard, deadline, error) where guard is the condition of the enclosing `if` ("" = the final,
+// unguarded return), deadline is the first result as written and error is "nil" or "error".
+func (g *gen) c10DeadlineSource(pkgPath, fn, lean string) {
+	_, fd := g.findFunc(pkgPath, fn)
+	if fd == nil {
+		return
+	}
+	type ret struct{ guard, val, err string }
+	var rets []ret
+	var assigns [][2]string
+	layout, layouts := "", 0
+	var walk func(stmts []ast.Stmt, guard string, depth int)
+	walk = func(stmts []ast.Stmt, guard string, depth int) {
+		for _, st := range stmts {
+			switch v := st.(type) {
+			case *ast.ReturnStmt:
+				if len(v.Results) != 2 {
+					g.errf("%s.%s: return with %d results", pkgPath, fn, len(v.Results))
+					return
+				}
+				e := "error"
+				if id, ok := v.Results[1].(*ast.Ident); ok && id.Name == "nil" {
+					e = "nil"
+				}
+				rets = append(rets, ret{guard, types.ExprString(v.Results[0]), e})
+			case *ast.IfStmt:
+				if v.Init != nil || v.Else != nil || depth > 0 {
+					g.errf("%s.%s: unexpected shape of an if statement at %s", pkgPath, fn, g.pos(v.Pos()))
+					return
+				}
+				walk(v.Body.List, types.ExprString(v.Cond), depth+1)
+			case *ast.AssignStmt:
+				if len(v.Lhs) == 2 && len(v.Rhs) == 1 {
+					assigns = append(assigns, [2]string{types.ExprString(v.Lhs[0]) + ", " + types.ExprString(v.Lhs[1]), types.ExprString(v.Rhs[0])})
+				} else {
+					g.errf("%s.%s: unexpected assignment at %s", pkgPath, fn, g.pos(v.Pos()))
+				}
+			case *ast.ExprStmt:
+				// events published on the way (no influence on the result)
+			default:
+				g.errf("%s.%s: unexpected statement at %s", pkgPath, fn, g.pos(st.Pos()))
+			}
+		}
+	}
+	walk(fd.Body.List, "", 0)
+	ast.Inspect(fd.Body, func(n ast.Node) bool {
+		ce, ok := n.(*ast.CallExpr)
+		if !ok || types.ExprString(ce.Fun) != "time.Parse" || len(ce.Args) != 2 {
+			return true
+		}
+		if v, ok := g.c10ConstOf(pkgPath, ce.Args[0]); ok && v.Kind() == constant.String {
+			layout = constant.StringVal(v)
+			layouts++
+		}
+		return true
+	})
+	if layouts != 1 {
+		g.errf("%s.%s: expected exactly one time.Parse call with a constant layout, found %d", pkgPath, fn, layouts)
+		return
+	}
+	b := g.out(c10Group)
+	fmt.Fprintf(b, "/-- `%s.%s` (%s): layout given to `time.Parse` -/\ndef terminationTimestampLayout : String := %s\n\n", pkgPath, fn, g.pos(fd.Pos()), leanStr(layout))
+	fmt.Fprintf(b, "/-- `%s.%s`: the assignments (lhs, rhs) its result is computed from -/\ndef %sAssigns : List (String × String) := [", pkgPath, fn, lean)
+	for i, a := range assigns {
+		if i > 0 {
+			b.WriteString(", ")
+		}
+		fmt.Fprintf(b, "(%s, %s)", leanStr(a[0]), leanStr(a[1]))
+	}
+	b.WriteString("]\n\n")
+	fmt.Fprintf(b, "/-- `%s.%s`: every return in source order as (guard of the enclosing if, deadline returned, error returned) -/\ndef %sReturns : List (String × String × String) := [", pkgPath, fn, lean)
+	for i, r := range rets {
+		if i > 0 {
+			b.WriteString(", ")
+		}
+		fmt.Fprintf(b, "(%s, %s, %s)", leanStr(r.guard), leanStr(r.val), leanStr(r.err))
 	}
 	b.WriteString("]\n\n")
 }
